@@ -372,7 +372,7 @@ def scan_ops():
     ops += [G.op_simple('to_list'), G.op_simple('to_array'), G.op_simple('batch', n=2),
             G.op_simple('batch', n=1), G.op_simple('batch', n=3),
             G.op_simple('duc', f=fn('id')), G.op_simple('duc', f=fn('modc', 2)),
-            G.op_simple('progress')]
+            G.op_simple('progress'), G.op_simple('dist')]
     return ops
 
 
@@ -406,7 +406,7 @@ def cases_c09(rng, thorough):
 
 
 C09_OPS = ('scan', 'count', 'sum', 'mean', 'min', 'max', 'to_list', 'to_array', 'batch', 'duc',
-           'progress')
+           'progress', 'dist')
 
 
 def relevant_c09(n):
@@ -1102,7 +1102,15 @@ def main(prop):
         extra_mc, replay_cases, model_logs = [], [], []
         if prop in MODEL:
             Mo = MODEL[prop]
-            extra_mc, replay_cases, model_logs = model_phase(V, prop, Mo['pipes'](), thorough,
+            mpipes = Mo['pipes']()
+            if thorough and Mo.get('kind', 'int') == 'int':
+                # random well-typed compositions, exhaustively over all interleavings too
+                mrng = random.Random(C.seed() * 7 + int(prop[1:]))
+                while len(mpipes) < len(Mo['pipes']()) + 24:
+                    cand = G.gen_pipe(mrng, 'int', mrng.choice([1, 2, 2]), mrng.choice([0, 1, 2]))[0]
+                    if 'dist' not in json.dumps(cand):
+                        mpipes.append(cand)
+            extra_mc, replay_cases, model_logs = model_phase(V, prop, mpipes, thorough,
                                                              kind=Mo.get('kind', 'int'),
                                                              deviations=Mo['deviations'])
             V.phase('model checking (implementation model)')
